@@ -34,5 +34,110 @@ def scenarios(tier):
     return S
 
 
+def adaptive_cases(tier, rng):
+    C = []
+    n = 30 if tier == 'quick' else 300
+    for k in range(n):
+        prob = ['vdp', 'test', 'lorenz', 'vdp'][k % 4]
+        c = dict(problem=prob, e_tol=10 ** rng.uniform(-8, -3), dt=rng.choice([0.5, 0.1, 0.02]), tend=rng.choice([0.5, 1.0]),
+                 maxiter=rng.choice([2, 3, 4]), max_restarts=rng.choice([1, 2, 10]), crash=rng.random() < 0.5)
+        if prob == 'vdp':
+            c['mu'] = rng.choice([1.0, 5.0, 30.0])
+        r = rng.random()
+        if r < 0.3:
+            c['dt_slope_min'] = rng.choice([0.1, 0.5])
+            c['dt_slope_max'] = rng.choice([2.0, 4.0])
+        elif r < 0.6:
+            c['dt_min'] = rng.choice([1e-4, 1e-3])
+            c['dt_max'] = rng.choice([0.05, 0.2])
+        if rng.random() < 0.3:
+            c['beta'] = rng.choice([0.8, 0.95])
+        C.append(c)
+    return C
+
+
+def _adapt_job(case):
+    from harness import adapt_runs
+    try:
+        return adapt_runs.run(case)
+    except Exception as e:  # noqa
+        import traceback
+        return dict(error=f'{type(e).__name__}: {e} {traceback.format_exc()[-300:]}')
+
+
 def run(tier, seed):
-    return run_property('C09', scenarios(tier), tier, seed)
+    import json
+    import multiprocessing as mp
+    import os
+    import random
+    import shutil
+    import tempfile
+    from lib import tlc
+    from lib.evidence import Report, load_known
+    code1 = run_property('C09', scenarios(tier), tier, seed)
+    root = os.path.dirname(os.path.dirname(os.path.abspath(__file__)))
+    ev1 = json.load(open(os.path.join(root, 'evidence', 'C09.json')))
+    rep = Report('C09', tier, seed, clear_replays=False)
+    rep.assumptions = ev1.get('assumptions', []) + [
+        'numeric clauses on real adaptive runs (Adaptivity with embedded error estimate, StepSizeLimiter / StepSizeSlopeLimiter, one step per '
+        'block): floats are projected to ranks; "proposal = beta*dt*(tol/err)^(1/order)" and "clipped to the limits" are evaluated by the '
+        'recorder from the logged operands with the same floating-point expression the code uses (bit equality), so they test the wiring '
+        '(which operands, which order of limiters), not the numerical quality of the estimate']
+    rep.rule = ev1['coverage'].get('rule', '') + ' | adaptive part: cases = real adaptive runs (problem, tolerance, limits, budget); non-trivial = at least one rejected step'
+    known = load_known()
+    rng = random.Random(seed + 17)
+    scratch = tempfile.mkdtemp(prefix='verif_c09a_')
+    try:
+        cases = adaptive_cases(tier, rng)
+        with mp.Pool(16) as pool:
+            futs = [pool.apply_async(_adapt_job, (c,)) for c in cases]
+            outs = []
+            for f in futs:
+                try:
+                    outs.append(f.get(timeout=300))
+                except mp.TimeoutError:
+                    outs.append(dict(error='adaptive run did not finish within 300 s'))
+        runs = []
+        for k, (c, o) in enumerate(zip(cases, outs)):
+            if 'error' in o:
+                rep.machinery.append('adaptive run failed: ' + o['error'])
+            else:
+                runs.append(dict(tid=k + 1, case=c, exc=o['exc'], att=o['att'], max_restarts=o['max_restarts']))
+        tf = os.path.join(scratch, 'runs.json')
+        json.dump(dict(runs=[{k: v for k, v in r.items() if k != 'case'} for r in runs]), open(tf, 'w'))
+        cfg = os.path.join(scratch, 'A.cfg')
+        tlc.write_cfg(cfg, spec='Spec', check_deadlock=False)
+        res = tlc.run_tlc('AdaptMonitor', cfg, workers=1, timeout=1800, env_extra={'TRACE_FILE': tf})
+        verdicts = {v['tid']: v['viol'] for v in res.prints if isinstance(v, dict) and 'tid' in v}
+        rep.states += res.distinct
+        rep.transitions += res.generated
+        if len(verdicts) != len(runs):
+            rep.machinery.append('AdaptMonitor did not return all verdicts: ' + res.raw[-500:])
+        byid = {r['tid']: r for r in runs}
+        for tid, viol in verdicts.items():
+            for clause in viol:
+                r = byid[tid]
+                rep.violation(clause, dict(kind='adaptive-run', clause=clause, case=r['case'], exc=r['exc'], attempts=r['att'][:12]))
+        rep.states += ev1['coverage'].get('states', 0)
+        rep.transitions += ev1['coverage'].get('transitions', 0)
+        rep.traces = len(verdicts) + ev1['coverage'].get('traces_validated_against_impl', 0)
+        rep.evaluations = rep.traces
+        rep.distinct_nontrivial = ev1['coverage'].get('distinct_nontrivial', 0) + sum(1 for r in runs if any(a['restart'] for a in r['att']))
+        rep.cov['adaptive_runs'] = len(verdicts)
+        rep.cov['adaptive_attempts'] = sum(len(r['att']) for r in runs)
+        rep.cov['adaptive_rejections'] = sum(sum(1 for a in r['att'] if a['restart']) for r in runs)
+        rep.cov['state_machine_part'] = {k: ev1['coverage'].get(k) for k in ('clause_counts', 'trace_actions', 'traces_validated_against_impl', 'tv_batches',
+                                                                             'explore', 'gen', 'mc_violations', 'tlc_runs')}
+        rep.samples += ev1['coverage'].get('samples', [])[:1]
+        if runs:
+            rep.samples.append(dict(case=runs[0]['case'], attempts=runs[0]['att'][:4]))
+        for fid, n in (ev1.get('known_findings') or {}).items():
+            text = next((f['text'] for f in known['findings'] if f['id'] == fid), '')
+            rep.known[fid] = (n, text)
+        if code1 == 1:
+            rep.violation('state_machine_part_summary', dict(kind='see the replay files C09_*.json written by the state-machine part'))
+        elif code1 == 2:
+            rep.machinery.append('state-machine part reported a machinery problem (see output above)')
+    finally:
+        shutil.rmtree(scratch, ignore_errors=True)
+    return rep.finish()
